@@ -68,7 +68,8 @@ type JobOpts struct {
 	MaxInstrs     int  `json:"max_instrs,omitempty"`
 	LoopFuel      int  `json:"loop_fuel,omitempty"`
 	AllPerms      bool `json:"all_perms,omitempty"`
-	MapOrders     int  `json:"map_orders,omitempty"` // >0: explore only this many (evenly spaced) rotations per map range
+	MaxCallDepth  int  `json:"max_call_depth,omitempty"` // engine frames (default 400)
+	MapOrders     int  `json:"map_orders,omitempty"`     // >0: explore only this many (evenly spaced) rotations per map range
 	NoSummary     bool `json:"no_summary,omitempty"`
 	QueryTimeoutS int  `json:"query_timeout_s,omitempty"`
 }
@@ -1891,7 +1892,11 @@ func (w *Worker) invoke(st *State, f *Frame, x ssa.Value, callee *ssa.Function, 
 		nf.env[fvv] = bindings[i]
 	}
 	st.frames = append(st.frames, nf)
-	if len(st.frames) > gCfg.MaxCallDepth {
+	maxDepth := gCfg.MaxCallDepth
+	if w.job.Opts.MaxCallDepth > 0 {
+		maxDepth = w.job.Opts.MaxCallDepth
+	}
+	if len(st.frames) > maxDepth {
 		w.job.inconclusive("call depth bound exceeded")
 		w.endPath("depth")
 	}
